@@ -51,13 +51,40 @@ def in_units_of(interp):
     return f
 
 
+class RepoSymbol:
+    """A name imported from another module of /repo: resolved lazily by loading that module's real
+    source with the same interpreter (the callee is inlined: a change in it shows in the caller's VCs)."""
+
+    def __init__(self, interp, relpath, name):
+        self.interp, self.relpath, self.name = interp, relpath, name
+
+    def resolve(self):
+        return self.interp.load_module(self.relpath).globals[self.name]
+
+    def sym_call(self, interp, args, kwargs):
+        return interp.call(self.resolve(), args, kwargs)
+
+    def sym_getattr(self, interp, name):
+        return interp.getattr(self.resolve(), name)
+
+
 def setup_interp(interp, con=None):
+    from mdvc.npmodel import NumpyT
+
     models.install_std(interp)
+    interp.import_models["numpy"] = NumpyT()
+    interp.import_models["collections.abc"] = __import__("collections").abc
     utils = Namespace(
         "mdtraj.utils",
         in_units_of=in_units_of(interp),
         import_=lambda name: interp.import_models.get(name, OpaqueModule(name)),
+        open_maybe_zipped=RepoSymbol(interp, "mdtraj/utils/zipped.py", "open_maybe_zipped"),
+        ensure_type=RepoSymbol(interp, "mdtraj/utils/validation.py", "ensure_type"),
+        cast_indices=RepoSymbol(interp, "mdtraj/utils/validation.py", "cast_indices"),
+        lengths_and_angles_to_box_vectors=RepoSymbol(interp, "mdtraj/utils/unitcell.py", "lengths_and_angles_to_box_vectors"),
+        box_vectors_to_lengths_and_angles=RepoSymbol(interp, "mdtraj/utils/unitcell.py", "box_vectors_to_lengths_and_angles"),
     )
+    interp.import_models["mdtraj.utils.validation"] = utils
     interp.import_models["mdtraj.utils"] = utils
     interp.import_models["mdtraj.utils.unit"] = utils
     return interp
